@@ -342,17 +342,28 @@ def gr_glue(c):
                          "non-cease / admin shutdown / admin-down")
 
 
-def inbound_loops(c):
+def ibgp_only_from_external(c):
+    """C05, last clause, at the SESSION: which peers validate_message is told are external is the daemon's decision
+    (PeerSession::rx_msg).  Real sessions of every kind (plain external, route-server client, internal, confederation) send
+    LOCAL_PREF / ORIGINATOR_ID / CLUSTER_LIST; from an external peer none of them may be believed."""
+    cases = []
+    for peer in ("ebgp", "rs", "ibgp", "confed"):
+        for loop in ("none", "originator_other", "cluster_other"):
+            cases.append({"case": {"peer": peer, "confed": peer == "confed", "loop": loop}, "installed": True})
+    c.inbound_cases = cases
+    inbound_loops(c, tag="C05", kind="c05.ibgp_only_believed")
+
+
+def inbound_loops(c, tag="C09", kind="prop.inbound_ibgp_attr"):
     """C09 inbound half: the Installed table of Propagation.tla on a real session."""
     import json
     import os
     import vf
-    import C09
     cases = getattr(c, "inbound_cases", None)
     if not cases:
         raise vf.ToolError("no inbound cases emitted")
-    inp = os.path.join(vf.WORK, "C09.inb.in")
-    outp = os.path.join(vf.WORK, "C09.inb.out")
+    inp = os.path.join(vf.WORK, f"{tag}.inb.in")
+    outp = os.path.join(vf.WORK, f"{tag}.inb.out")
     with open(inp, "w") as f:
         for j in cases:
             k = j["case"]
@@ -372,8 +383,8 @@ def inbound_loops(c):
         if g["installed"] != j["installed"]:
             c.violation("prop.inbound", {"case": j["case"], "expected_installed": j["installed"], "actual_installed": g["installed"]},
                         {"spec": "Propagation (inbound)", "case": j["case"]})
-        elif j["case"]["peer"] == "ebgp" and g["kept"]:
-            c.violation("prop.inbound_ibgp_attr", {"case": j["case"], "kept": g["kept"],
+        elif j["case"]["peer"] in ("ebgp", "rs") and g["kept"]:
+            c.violation(kind, {"case": j["case"], "kept": g["kept"],
                                                    "why": "iBGP-only attribute from an external peer was believed"},
                         {"spec": "Propagation (inbound)", "case": j["case"]})
     c.cov["evaluations"] += len(cases)
